@@ -89,6 +89,10 @@ class BondDescriptor(BigSMILESbase):
         if "|" in self._raw_text:
             if self._raw_text.count("|") != 2:
                 raise RuntimeError(f"Invalid number of '|' in bond descriptor {self._raw_text}")
+            if self._raw_text[self._raw_text.rfind("|") + 1 :].strip() != "]":
+                raise RuntimeError(
+                    f"Bond descriptor {self._raw_text} has text between its weight and the closing ']'"
+                )
             weight_string = self._raw_text[self._raw_text.find("|") : self._raw_text.rfind("|")]
             weight_string = weight_string.strip("|")
             weight_list = [float(w) for w in weight_string.split()]
